@@ -63,7 +63,7 @@ Apply(e) ==
                 S(r.ts, subs, IF r.slept THEN "sleeping" ELSE IF r.until = 0 /\ ~r.slept THEN "again" ELSE "pass",
                   r.fired, pendC, regs, unsub)
       [] e.ev = "timer" ->
-           IF pendF = <<>> \/ Head(pendF).rid # e.rid \/ Head(pendF).cb # e.cb
+           IF pendF = <<>> \/ Head(pendF).rid # e.rid \/ Head(pendF).cb # e.cb \/ Head(pendF).t # e.t
            THEN (LET m == RegFire(regs, e.rid, e.t) IN
                  IF m.bad # {} THEN [Keep EXCEPT !.bad = m.bad]
                  ELSE Fail("timer callback differs from the one the specification fires next"))
